@@ -3,13 +3,16 @@
     Statements only; every proof is [exact <lemma>] (lemmas in Codec/Prim2Proofs.v, ReflectProofs.v).
 
     The model (Codec/Reflect.v, the code as it is now, i.e. after the fix commits "reader and writer crashed
-    on nil pointers of basic types" and "readReflect trusted a wire-supplied slice length") keeps the crashes
+    on nil pointers of basic types", "readReflect trusted a wire-supplied slice length" and "nested slices of
+    zero-size elements made decoding quadratic in the input") keeps the crashes
     the Go code could have: an outcome is
       OOk a | OErr e | OPanic why | OFuel | OIll
     ([OFuel]: the model's loop fuel ran out — never a normal value, excluded below; [OIll]: the (type,
     payload) pair is not a Go value), and the reader returns, next to its outcome, a cost meter
       (bytes requested from the allocator, loop iterations)
     which is how "never allocates / loops out of proportion to the input" is stated; [work m] is their sum.
+    A Reader state is (remaining input, elems) with elems = slice elements created so far; [tot] = len(buf);
+    [read0 ty bs] is Read on a fresh Reader over bs.
     [okerr o] := (exists a, o = OOk a) \/ (exists e, o = OErr e). *)
 From Coq Require Import List NArith ZArith Bool.
 From Vivid Require Import Codec.Prim Codec.PrimProofs Codec.Prim2 Codec.Prim2Proofs Codec.Reflect Codec.ReflectProofs.
@@ -37,14 +40,14 @@ Proof. vm_compute. reflexivity. Qed.
     a nil pointer of any type (top level or nested): "cannot write nil pointer" — except a nil *[]byte, which
     is written as an empty slice; pointer and interface targets cannot be read *)
 Theorem C13_unsupported_is_error :
-  (forall b v, basic_ok b v = true -> write (TNamed b) v = OErr EUnsupported /\ forall bs, fst (read (TNamed b) bs) = OErr EUnsupported) /\
-  (forall z, write TInt (VZ z) = OErr EUnsupported /\ forall bs, fst (read TInt bs) = OErr EUnsupported) /\
-  (forall n, write TUint (VN n) = OErr EUnsupported /\ forall bs, fst (read TUint bs) = OErr EUnsupported) /\
+  (forall b v, basic_ok b v = true -> write (TNamed b) v = OErr EUnsupported /\ forall tot st, fst (read tot (TNamed b) st) = OErr EUnsupported) /\
+  (forall z, write TInt (VZ z) = OErr EUnsupported /\ forall tot st, fst (read tot TInt st) = OErr EUnsupported) /\
+  (forall n, write TUint (VN n) = OErr EUnsupported /\ forall tot st, fst (read tot TUint st) = OErr EUnsupported) /\
   (forall v, v = VNil \/ v = VOpaque -> write TMap v = OErr EUnsupported /\ write TChan v = OErr EUnsupported /\ write TFunc v = OErr EUnsupported) /\
   write TIface VNil = OErr EUnsupported /\
   (forall t, t <> TSlice false (TBasic BU8) -> write (TPtr t) VNil = OErr EInvalid) /\
   write (TPtr (TSlice false (TBasic BU8))) VNil = OOk [0; 0; 0; 0] /\
-  (forall t bs, fst (read (TPtr t) bs) = OErr EUnsupported) /\ (forall bs, fst (read TIface bs) = OErr EUnsupported).
+  (forall t tot st, fst (read tot (TPtr t) st) = OErr EUnsupported) /\ (forall tot st, fst (read tot TIface st) = OErr EUnsupported).
 Proof. exact unsupported_kinds. Qed.
 
 (** ** (b) decoding: every type, EVERY byte string *)
@@ -52,15 +55,20 @@ Proof. exact unsupported_kinds. Qed.
     (the element loop runs with fuel |remaining input|+1, an explicit argument of [rd_elems]); a type that
     occupies bytes on the wire consumes at least one byte per successful read, which is why the fuel suffices *)
 Theorem C13_read_total ty bs :
-  (exists v r h, fst (read ty bs) = OOk (v, r) /\ bs = h ++ r /\ (wire0 ty = false -> h <> []))
-  \/ (exists e, fst (read ty bs) = OErr e).
-Proof. exact (read_total ty bs). Qed.
-Theorem C13_read_never_crashes ty bs : okerr (fst (read ty bs)).
-Proof. exact (read_okerr ty bs). Qed.
-Theorem C13_read_into_total tys bs :
-  (exists vs r h, fst (read_into tys bs) = OOk (vs, r) /\ bs = h ++ r /\ length vs = length tys)
-  \/ (exists e, fst (read_into tys bs) = OErr e).
-Proof. exact (read_into_total tys bs). Qed.
+  (exists v r el h, fst (read0 ty bs) = OOk (v, (r, el)) /\ bs = h ++ r /\ (wire0 ty = false -> h <> []))
+  \/ (exists e, fst (read0 ty bs) = OErr e).
+Proof. exact (read0_total ty bs). Qed.
+(** the same for a Reader in ANY state (any budget, any element count) *)
+Theorem C13_read_total_any_reader tot ty st :
+  (exists v st' h, fst (read tot ty st) = OOk (v, st') /\ fst st = h ++ fst st' /\ (wire0 ty = false -> h <> []) /\ snd st <= snd st')
+  \/ (exists e, fst (read tot ty st) = OErr e).
+Proof. exact (read_total tot ty st). Qed.
+Theorem C13_read_never_crashes tot ty st : okerr (fst (read tot ty st)).
+Proof. exact (read_okerr tot ty st). Qed.
+Theorem C13_read_into_total tot tys st :
+  (exists vs st' h, fst (read_into tot tys st) = OOk (vs, st') /\ fst st = h ++ fst st' /\ length vs = length tys)
+  \/ (exists e, fst (read_into tot tys st) = OErr e).
+Proof. exact (read_into_total tot tys st). Qed.
 (** Read called with a typed nil pointer (of any type), a non-pointer or nil: an error, nothing is read *)
 Theorem C13_read_call_total tg bs : okerr (read_call tg bs).
 Proof. exact (read_call_total tg bs). Qed.
@@ -87,38 +95,34 @@ Example C13_uvarint_bound_example : wf_bytes [255; 255; 255; 255; 255; 255; 255;
   /\ rd_uvarint [255; 255; 255; 255; 255; 255; 255; 255; 255; 1] = Ok (18446744073709551615, []).
 Proof. split; vm_compute; reflexivity. Qed.
 
-(** allocation and work.  [cw m a L K] := work m + a * remaining <= a * L + K  /\  remaining <= L.
-    For every type in which no slice has elements that occupy no bytes on the wire ([lin_ty]; in particular
-    every type whose slices hold basic values, strings, or structs with at least one exported field) and EVERY
-    input: the bytes requested from the allocator plus the loop iterations are at most [kA ty] per input
-    byte consumed plus [kK ty], two constants of the TYPE (sizes of its temporaries and elements, fixed array
-    lengths).  A hostile length prefix is rejected before anything is allocated. *)
-Theorem C13_cost_linear_partial ty bs : lin_ty ty = true -> cw (read ty bs) (kA ty) (N.of_nat (length bs)) (kK ty).
-Proof. exact (fun H => cost_linear ty H bs). Qed.
-Theorem C13_work_linear_partial ty bs : lin_ty ty = true -> work (read ty bs) <= kA ty * N.of_nat (length bs) + kK ty.
+(** allocation and work, for EVERY type and EVERY input, in every Reader state.
+    [res tot st] = remaining input bytes + remaining element budget (tot - elems): what the Reader can still
+    pay with; [cw tot m a L K] := work m + a * (res of the resulting state) <= a * L + K /\ res' <= L.
+    The bytes requested from the allocator plus the loop iterations are at most [kA ty] per unit of [res]
+    used up plus [kK ty] — two constants of the TYPE (sizes of its temporaries and elements, fixed array
+    lengths); on a fresh Reader res = 2 * |input|. *)
+Theorem C13_cost_linear tot ty st : cw tot (read tot ty st) (kA ty) (res tot st) (kK ty).
+Proof. exact (cost_linear tot ty st). Qed.
+Theorem C13_work_linear ty bs : work (read0 ty bs) <= 2 * kA ty * N.of_nat (length bs) + kK ty.
 Proof. exact (work_linear ty bs). Qed.
-Example C13_cost_linear_example :
-  lin_ty (TStruct [(true, TBasic BStr); (true, TSlice false (TArray 3 (TStruct [(true, TSlice true (TBasic BU8)); (false, TSlice false (TStruct []))])))]) = true.
-Proof. exact ex_lin. Qed.
+(** hostile length prefixes are rejected before anything is allocated *)
 Theorem C13_hostile_length_rejected :
-  read (TSlice false (TBasic BU64)) [255; 255; 255; 255] = (OErr EEOF, (0, 0))
-  /\ read (TSlice false (TStruct [])) [255; 255; 255; 255] = (OErr EEOF, (0, 0))
-  /\ read (TSlice true (TBasic BU8)) [255; 255; 255; 255; 1; 2] = (OErr EEOF, (0, 0)).
+  read0 (TSlice false (TBasic BU64)) [255; 255; 255; 255] = (OErr EEOF, (0, 0))
+  /\ read0 (TSlice false (TStruct [])) [255; 255; 255; 255] = (OErr EEOF, (0, 0))
+  /\ read0 (TSlice true (TBasic BU8)) [255; 255; 255; 255; 1; 2] = (OErr EEOF, (0, 0)).
 Proof. exact w_hostile_length. Qed.
 (** arrays: the temporary and the loop count come from the TYPE (part of [kK]); a wire length that differs is
     an error before any element is read *)
-Theorem C13_array_cost n e bs : fst (snd (read (TArray n e) bs)) >= n * tsize e /\
-  (forall m t, rd_u32 bs = Ok (m, t) -> m <> n -> read (TArray n e) bs = (OErr EInvalid, (n * tsize e, 0))).
-Proof. exact (array_cost n e bs). Qed.
-(** REFUTED without the guard: a slice of zero-wire-size elements may announce as many elements as bytes
-    remain and consumes only its 4-byte prefix; nested in another slice this repeats per element, so the work
-    is quadratic in the input: 804 input bytes, 79 800 iterations for [][]struct{}, 641 600 bytes requested
-    for [][]struct{ x uint64 } ([bomb k] = outer length k, inner slice i announces 4*(k-i) elements) *)
-Theorem C13_nested_zero_size_refuted :
+Theorem C13_array_cost tot n e st : fst (snd (read tot (TArray n e) st)) >= n * tsize e /\
+  (forall m t, rd_u32 (fst st) = Ok (m, t) -> m <> n -> read tot (TArray n e) st = (OErr EInvalid, (n * tsize e, 0))).
+Proof. exact (array_cost tot n e st). Qed.
+(** the former quadratic case — slices of zero-wire-size elements nested in a slice, every inner slice
+    announcing as many elements as bytes remain ([bomb k]: outer length k, inner slice i announces 4*(k-i)) —
+    now stops at the first inner slice: 804 input bytes, 4800 bytes requested, no iteration *)
+Theorem C13_nested_zero_size_bounded :
   length (bomb 200) = 804%nat
-  /\ snd (snd (read (TSlice false (TSlice false (TStruct []))) (bomb 200))) = 79800
-  /\ fst (snd (read (TSlice false (TSlice false (TStruct [(false, TBasic BU64)]))) (bomb 200))) = 641600
-  /\ lin_ty (TSlice false (TSlice false (TStruct []))) = false.
+  /\ read0 (TSlice false (TSlice false (TStruct []))) (bomb 200) = (OErr EEOF, (4800, 0))
+  /\ read0 (TSlice false (TSlice false (TStruct [(false, TBasic BU64)]))) (bomb 200) = (OErr EEOF, (4800, 0)).
 Proof. exact w_nested_wire0. Qed.
 
 (** ReadBytes(n)/Skip(n) with a negative caller-supplied n panic (n is not wire data) *)
@@ -128,23 +132,23 @@ Proof. exact w_readbytes_negative. Qed.
 (** ** (c) the caller's variables *)
 (** a failing Read(&x) leaves x unchanged, for every type (primitives are assigned after the read, slices
     after the last element, arrays and structs are read into a temporary) *)
-Theorem C13_no_clobber old ty bs : (forall r, snd (read_var old ty bs) <> OOk r) -> fst (read_var old ty bs) = old.
-Proof. exact (read_var_fail old ty bs). Qed.
-Example C13_no_clobber_example : forall r, snd (read_var (VStruct [VN 7; VN 8]) (TStruct [(true, TBasic BU8); (true, TBasic BU16)]) [1; 2]) <> OOk r.
+Theorem C13_no_clobber tot old ty st : (forall r, snd (read_var tot old ty st) <> OOk r) -> fst (read_var tot old ty st) = old.
+Proof. exact (read_var_fail tot old ty st). Qed.
+Example C13_no_clobber_example : forall r, snd (read_var 2 (VStruct [VN 7; VN 8]) (TStruct [(true, TBasic BU8); (true, TBasic BU16)]) ([1; 2], 0)) <> OOk r.
 Proof. intros r. vm_compute. discriminate. Qed.
 (** ReadInto(&a, &b, ...): on failure exactly the variables before the failing one hold decoded values,
     the failing one and all later ones are unchanged; on success all hold the decoded values *)
-Theorem C13_read_into_vars olds bs vs o : read_into_vars olds bs = (vs, o) ->
-  (forall r, o = OOk r -> fst (read_into (map fst olds) bs) = OOk (vs, r)) /\
+Theorem C13_read_into_vars tot olds st vs o : read_into_vars tot olds st = (vs, o) ->
+  (forall r, o = OOk r -> fst (read_into tot (map fst olds) st) = OOk (vs, r)) /\
   ((forall r, o <> OOk r) ->
      exists pre post dec rest, olds = pre ++ post /\ post <> [] /\
-       fst (read_into (map fst pre) bs) = OOk (dec, rest) /\ vs = dec ++ map snd post /\
-       (forall r, fst (read (fst (hd (TInt, VNil) post)) rest) <> OOk r)).
-Proof. exact (read_into_vars_spec olds bs vs o). Qed.
+       fst (read_into tot (map fst pre) st) = OOk (dec, rest) /\ vs = dec ++ map snd post /\
+       (forall r, fst (read tot (fst (hd (TInt, VNil) post)) rest) <> OOk r)).
+Proof. exact (read_into_vars_spec tot olds st vs o). Qed.
 (** REFUTED at full strength ("every previously decoded variable unchanged"): ReadInto's earlier targets
     are overwritten before a later one fails *)
 Theorem C13_read_into_clobber_refuted :
-  read_into_vars [(TBasic BU8, VN 9); (TBasic BU8, VN 9)] [1] = ([VN 1; VN 9], OErr EEOF).
+  read_into_vars0 [(TBasic BU8, VN 9); (TBasic BU8, VN 9)] [1] = ([VN 1; VN 9], OErr EEOF).
 Proof. exact w_read_into_clobber. Qed.
 
 Print Assumptions C13_write_total.
@@ -152,6 +156,7 @@ Print Assumptions C13_writeReflect_total.
 Print Assumptions C13_write_from_total.
 Print Assumptions C13_unsupported_is_error.
 Print Assumptions C13_read_total.
+Print Assumptions C13_read_total_any_reader.
 Print Assumptions C13_read_never_crashes.
 Print Assumptions C13_read_into_total.
 Print Assumptions C13_read_call_total.
@@ -161,11 +166,11 @@ Print Assumptions C13_varint_total.
 Print Assumptions C13_uvarint_eof.
 Print Assumptions C13_uvarint_overflow.
 Print Assumptions C13_uvarint_bound.
-Print Assumptions C13_cost_linear_partial.
-Print Assumptions C13_work_linear_partial.
+Print Assumptions C13_cost_linear.
+Print Assumptions C13_work_linear.
 Print Assumptions C13_hostile_length_rejected.
 Print Assumptions C13_array_cost.
-Print Assumptions C13_nested_zero_size_refuted.
+Print Assumptions C13_nested_zero_size_bounded.
 Print Assumptions C13_readbytes_negative_refuted.
 Print Assumptions C13_no_clobber.
 Print Assumptions C13_read_into_vars.
